@@ -274,13 +274,27 @@ static int pick(int me) {
 		for (int i = 0; i < n; i++)
 			if (cand[i] == me) def = me;
 		if (def < 0) def = cand[0];
-		if (n == 1) return cand[0];
+		/* A running thread may be preempted for any length of time, so a thread that sleeps only a little longer
+		 * (a polling receiver, the auto-flush thread) may overtake it here: when the schedule asks for it (bit 7 of the
+		 * pick byte / random mode), sleepers due within 20 ms are candidates too and virtual time jumps to their wake-up.
+		 * Without this, zero-cost CPU time would never let a sleeper run in the middle of another thread's call. */
+		int ext[MAXT], ne = 0;
+		if (sched_random || (have_preempt && (preempt_pick & 0x80) && dp_index >= next_preempt_at))
+			for (int i = 0; i < nth; i++)
+				if (th[i].state == T_SLEEP && th[i].wake > now_us && th[i].wake - now_us <= 20000) ext[ne++] = i;
+		if (n == 1 && ne == 0) return cand[0];
 		/* decision point */
 		int choice = def;
 		if (sched_random) {
-			if ((rng_next() & 0xff) < sched_prob) choice = cand[rng_next() % (unsigned) n];
+			if ((rng_next() & 0xff) < sched_prob) {
+				unsigned k = rng_next() % (unsigned) (n + ne);
+				if ((int) k < n) choice = cand[k];
+				else { choice = ext[k - (unsigned) n]; now_us = th[choice].wake; }
+			}
 		} else if (have_preempt && dp_index >= next_preempt_at) {
-			choice = cand[preempt_pick % (unsigned) n];
+			unsigned k = (unsigned) (preempt_pick & 0x7f) % (unsigned) (n + ne);
+			if ((int) k < n) choice = cand[k];
+			else { choice = ext[k - (unsigned) n]; now_us = th[choice].wake; }
 			dp_index++;
 			load_preempt();
 			dp_index--;
